@@ -32,7 +32,7 @@ func TestC16(t *testing.T) {
 		o.MaxBlocks, o.MaxTx, o.MaxOps, o.MaxDepth = 5, 10, 8, 4
 	}
 	t.Run("programs", func(t *testing.T) {
-		ev.Check(t, 1200, 15000, func(rt *rapid.T) {
+		ev.Check(t, 3000, 15000, func(rt *rapid.T) {
 			res := feeRunCase(rt, o)
 			feeRecord(rec, res, res.failAfterMutation+res.innerRollback > 0)
 			if res.violation != "" {
